@@ -9,4 +9,3 @@ CONSTANTS
   EmitSel = "reindex"
 VIEW View
 INVARIANTS ReindexIsIdeal NoLeak Emit
-ACTION_CONSTRAINT EmitEdge
